@@ -1088,6 +1088,16 @@ func main() {
 		facts["unlockByIdLookups"] = l
 		return "def unlockByIdLookups : List Bytes := " + bytesList(l)
 	})
+	// ---- lfsapi/auth.go (C15, C06): how often a request answered with an authentication error is submitted again
+	emit("authResubmission", func() string {
+		ap := safeLoad(filepath.Join(repo, "lfsapi"))
+		entry := ap.callsWithConds("DoWithAuth", "Client", "doWithAuthResubmit")
+		again := ap.callsWithConds("doWithAuthResubmit", "Client", "doWithAuthResubmit")
+		max := ap.num("defaultMaxAuthAttempts")
+		facts["authResubmission"] = map[string]interface{}{"entry": entry, "again": again, "max": max}
+		return "def authResubmitEntry : List Bytes := " + bytesList(entry) + "\ndef authResubmitAgain : List Bytes := " + bytesList(again) +
+			fmt.Sprintf("\ndef defaultMaxAuthAttempts : Nat := %d", max)
+	})
 	// ---- lfsapi/auth.go (C18, C10): after an auth error the Authorization header is deleted from the request only
 	// when git-lfs itself had filled it from the credential helper — never a header the offered action supplied
 	emit("authHeaderDeletions", func() string {
